@@ -140,6 +140,15 @@ def relayout(A, how):
 def mat_of_class(mc, k, rng):
     u = ROTS[k % len(ROTS)]
     R = core.g_rot(u)
+    if mc.endswith("[DCM-typed]"):
+        D = DCM(R.copy())
+        if mc.startswith("reflection"):
+            return -D, None                          # det = -1, still of class DCM
+        if mc.startswith("scaled-up"):
+            return D * (1 + 3e-4 * (1 + k % 3)), None
+        S = D.copy()
+        S[k % 3, (k + 1) % 3] += 2e-4 * (1 + k % 4)   # an in-place edit of a verified object
+        return S, None
     if mc.startswith("rotation["):
         how = mc[9:-1]
         if how == "int-dtype":
@@ -205,7 +214,7 @@ def build_dcm(c, k, rng):
             return (lambda: Quaternion(dcm=keep(M), method=m)), ("quat-of-mat", Mf if u is not None else None)
         m = ["shepperd", "itzhack"][k % 2]      # the methods defined on all of SO(3) (the grid has half-turns)
         return (lambda: QuaternionArray(DCM=keep(M), method=m)), ("quats-of-mats", Mf if u is not None else None)
-    ang = {"rotation": 0.3 + 0.4 * k, "nan-entry": float("nan"), "zero": 0.0, "rotation[int-dtype]": 1}[mc]
+    ang = {"rotation": (0.3 + 0.4 * k, 7e-3, -3e-3)[k % 3], "nan-entry": float("nan"), "zero": 0.0, "rotation[int-dtype]": 1}[mc]
     if route in ("x=", "y=", "z="):
         return (lambda: DCM(**{route[0]: ang})), ("mat", None)
     if route == "xyz=":
@@ -228,16 +237,16 @@ def build_dcm(c, k, rng):
             axi = np.array(DIRS3[k % 5], dtype=np.int64)
             return (lambda: DCM(axang=(axi, 1))), ("mat", None)
         ax = {"rotation": np.array(DIRS3[k % 5], dtype=float), "nan-entry": np.array([1.0, np.nan, 0.0]), "zero": np.zeros(3)}[mc]
-        return (lambda: DCM(axang=(ax.copy(), 0.3 + 0.4 * k))), ("mat", None)
+        return (lambda: DCM(axang=(ax.copy(), (0.3 + 0.4 * k, 6e-3, -2.5e-3)[k % 3]))), ("mat", None)
     raise KeyError(route)
 
 
-def is_rotation(M):
+def is_rotation(M, tol=1e-9):
     M = np.asarray(M)
     if np.iscomplexobj(M) or M.shape[-2:] != (3, 3) or not np.all(np.isfinite(M)):
         return False
     Ms = M.reshape(-1, 3, 3)
-    return all(maxdiff(X @ X.T, np.identity(3)) <= 1e-9 and abs(np.linalg.det(X) - 1) <= 1e-9 for X in Ms)
+    return all(maxdiff(X @ X.T, np.identity(3)) <= tol and abs(np.linalg.det(X) - 1) <= tol for X in Ms)
 
 
 def observe(c, k, rng):
@@ -282,7 +291,9 @@ def observe(c, k, rng):
                 if maxdiff(rr, d) > 1e-12:
                     return "wrapped-invalid", "direction changed: got %s want %s" % (rr, d)
         return "valid", ""
-    if not is_rotation(a):
+    # a matrix the library BUILDS from parameters (angles, quaternion, axis-angle) is a rotation to round-off; a matrix it was GIVEN may be
+    # as far from SO(3) as the acceptance table allows
+    if not is_rotation(a, 1e-9 if c.get("route", "matrix") == "matrix" else 1e-13):
         return "wrapped-invalid", "not a proper rotation"
     if isinstance(want, tuple) and want[1] is not None and (a.shape != np.asarray(want[1]).shape or maxdiff(a, want[1]) > 1e-9):
         return "wrapped-invalid", "matrix changed"
